@@ -21,7 +21,7 @@ RULE = ("case = (three string terminal texts of 1-4 characters over letters, dig
         "keyword, ignore_case, input)")
 ASSUMPTIONS = [
     "KEYWORD regexes are chosen so that match and fullmatch coincide on the generated texts",
-    "escape convention of string literals: backslash escapes the quote character and itself; \\n and \\t denote newline and tab",
+    "escape convention of string literals: backslash escapes the quote character (of either kind, whichever delimits the literal) and itself; \\n and \\t denote newline and tab",
 ]
 
 ALPHA = list("abcxyzAB01_") + list(".|+*()[]\\'\"") + ["\n", "\t"]
@@ -31,8 +31,12 @@ RESERVED = {"EMPTY", "STOP"}
 RULE_NAMES = {"S", "ID", "KEYWORD", "T1", "T2", "T3"}
 
 
-def literal(text, quote="'"):
+def literal(text, quote="'", escape_both=False):
     out = text.replace("\\", "\\\\").replace(quote, "\\" + quote).replace("\n", "\\n").replace("\t", "\\t")
+    if escape_both:
+        # the quote of the other kind may be written escaped as well (it need not be)
+        other = '"' if quote == "'" else "'"
+        out = out.replace(other, "\\" + other)
     return quote + out + quote
 
 
@@ -62,13 +66,14 @@ def grammars(case):
     q = case["quote"]
     kw = KEYWORDS[case["keyword"]]
     tail = "ID: /%s/;\n" % IDS[case["id"]] + ("KEYWORD: /%s/;\n" % kw if kw else "")
-    inline = "S: %s %s | %s ID;\nterminals\n%s" % (literal(t1, q), literal(t2, q), literal(t3, q), tail)
+    eb = bool(case.get("escape_both"))
+    inline = "S: %s %s | %s ID;\nterminals\n%s" % (literal(t1, q, eb), literal(t2, q, eb), literal(t3, q, eb), tail)
     names = {}
     decls = []
     for t in (t1, t2, t3):
         if t not in names:
             names[t] = "T%d" % (len(names) + 1)
-            decls.append("%s: %s;" % (names[t], literal(t, q)))
+            decls.append("%s: %s;" % (names[t], literal(t, q, eb)))
     declared = "S: %s %s | %s ID;\nterminals\n%s\n%s" % (names[t1], names[t2], names[t3], "\n".join(decls), tail)
     return inline, declared
 
@@ -291,7 +296,7 @@ WORDY = st.sampled_from(["for", "to", "a", "ab", "x1", "c++", "a.b", "if", "S", 
 @st.composite
 def cases(draw):
     texts = [draw(st.one_of(TEXT, WORDY)) for _ in range(3)]
-    return {"texts": texts, "quote": draw(st.sampled_from(["'", '"'])),
+    return {"texts": texts, "quote": draw(st.sampled_from(["'", '"'])), "escape_both": draw(st.booleans()),
             "keyword": draw(st.integers(0, len(KEYWORDS) - 1)), "id": draw(st.integers(0, len(IDS) - 1)),
             "ignore_case": draw(st.integers(0, 3)) == 0}
 
